@@ -7,6 +7,7 @@ package control
 import (
 	"fmt"
 	"net/netip"
+	"sort"
 	"strings"
 	"testing"
 	"time"
@@ -21,7 +22,11 @@ const c18UnitTable = "C18.table"
 func c18GenInsert(t *rapid.T, names []string) c18Insert {
 	n := rapid.SampledFrom(names).Draw(t, "ins_name")
 	in := c18Insert{Name: n}
-	in.Qtype = rapid.SampledFrom([]uint16{dnsmessage.TypeA, dnsmessage.TypeA, dnsmessage.TypeAAAA, dnsmessage.TypeAAAA, dnsmessage.TypeTXT}).Draw(t, "ins_qtype")
+	if rapid.IntRange(0, 9).Draw(t, "ins_othertype") < 7 {
+		in.Qtype = rapid.SampledFrom([]uint16{dnsmessage.TypeA, dnsmessage.TypeAAAA}).Draw(t, "ins_qtype")
+	} else {
+		in.Qtype = rapid.SampledFrom(c18OtherQtypes).Draw(t, "ins_qtype")
+	}
 	in.Ttl = rapid.SampledFrom([]uint32{0, 1, 5, 9, 10, 11, 30, 60, 120, 300, 3600, 40000000}).Draw(t, "ins_ttl")
 	in.QName = n + "."
 	if rapid.IntRange(0, 4).Draw(t, "ins_case") == 0 {
@@ -40,7 +45,7 @@ func c18GenInsert(t *rapid.T, names []string) c18Insert {
 		in.Shape = "servfail"
 	default:
 		in.Shape = "addr"
-		in.ViaHost = in.Qtype != dnsmessage.TypeTXT
+		in.ViaHost = c18IsAddrType(in.Qtype)
 	}
 	in.Scope = rapid.SampledFrom([]string{"", "", "upstream@udp://8.8.8.8:53", "asis@1.1.1.1:53", "asis"}).Draw(t, "ins_scope")
 	return in
@@ -107,8 +112,13 @@ func (w *c18World) c18Ask(t *rapid.T, unit string, q c18Query) {
 func (w *c18World) c18Deadlines(now time.Time) []time.Time {
 	var ds []time.Time
 	for _, name := range c18PoolNames {
-		for _, qt := range []uint16{dnsmessage.TypeA, dnsmessage.TypeAAAA, dnsmessage.TypeTXT} {
-			for _, e := range w.dns[name][qt] {
+		qts := make([]int, 0, len(w.dns[name]))
+		for qt := range w.dns[name] {
+			qts = append(qts, int(qt))
+		}
+		sort.Ints(qts)
+		for _, qt := range qts {
+			for _, e := range w.dns[name][uint16(qt)] {
 				if e.exp.After(now) && e.exp.Sub(now) <= 2*time.Hour {
 					ds = append(ds, e.exp)
 				}
@@ -158,6 +168,8 @@ func TestC18_Table(t *testing.T) {
 					if d > 0 {
 						time.Sleep(d)
 					}
+				case k < 94:
+					w.c18ShadowScenario(rt)
 				default:
 					// a real-domain probe verdict for some spelling of a pool name
 					n := rapid.SampledFrom(c18PoolNames).Draw(rt, "rd_name")
@@ -173,4 +185,47 @@ func TestC18_Table(t *testing.T) {
 			}
 		})
 	})
+}
+
+// c18ShadowScenario: a short-lived address answer and a longer-lived answer of
+// another record type whose number shares its leading digits (A=1: 16, 15, 12, 10,
+// 11, 13, 19, 100; AAAA=28: 280, 281) for the same name, in either order; then the
+// clock passes the address answer's expiry and one or two janitor rounds (30 s),
+// and the name is asked for in domain mode with a destination of that family.
+func (w *c18World) c18ShadowScenario(rt *rapid.T) {
+	name := rapid.SampledFrom(c18PoolNames).Draw(rt, "sh_name")
+	v6 := rapid.Bool().Draw(rt, "sh_v6")
+	addr := c18Insert{Name: name, QName: name + ".", Qtype: dnsmessage.TypeA, Shape: "addr",
+		Ttl: rapid.SampledFrom([]uint32{1, 5, 9, 30}).Draw(rt, "sh_ttl")}
+	other := c18Insert{Name: name, QName: name + ".", Shape: "addr",
+		Ttl: rapid.SampledFrom([]uint32{300, 3600, 120}).Draw(rt, "sh_other_ttl")}
+	if v6 {
+		addr.Qtype = dnsmessage.TypeAAAA
+		other.Qtype = rapid.SampledFrom([]uint16{280, 281, 16, 65}).Draw(rt, "sh_other")
+	} else {
+		other.Qtype = rapid.SampledFrom([]uint16{16, 15, 12, 10, 11, 13, 19, 100, 257}).Draw(rt, "sh_other")
+	}
+	addr.Scope = rapid.SampledFrom([]string{"", "upstream@udp://8.8.8.8:53"}).Draw(rt, "sh_scope")
+	other.Scope = rapid.SampledFrom([]string{"", "upstream@udp://8.8.8.8:53", "asis"}).Draw(rt, "sh_other_scope")
+	order := []c18Insert{addr, other}
+	if rapid.Bool().Draw(rt, "sh_otherfirst") {
+		order = []c18Insert{other, addr}
+	}
+	for _, in := range order {
+		if err := w.insert(in); err != nil {
+			rt.Fatalf("production cache insert failed for %+v: %v", in, err)
+		}
+	}
+	vkClass(c18UnitTable, "op_shadow_scenario")
+	dst := netip.MustParseAddrPort("203.0.113.9:443")
+	if v6 {
+		dst = netip.MustParseAddrPort("[2001:db8::1]:443")
+	}
+	ask := func() {
+		q := c18Query{Mode: consts.DialMode_Domain, Ob: consts.OutboundUserDefinedMin, ObKind: "user", Dst: dst, Sn: c18Classify(name, "name")}
+		w.c18Ask(rt, c18UnitTable, q)
+	}
+	ask() // while the address answer is live
+	time.Sleep(time.Duration(addr.Ttl)*time.Second + time.Duration(rapid.SampledFrom([]int{31, 61, 1, 95}).Draw(rt, "sh_wait"))*time.Second)
+	ask() // after expiry (and usually eviction) of the address answer
 }
